@@ -2,16 +2,61 @@
 import FunsorVerif.Core.Sexp
 import FunsorVerif.Core.XR
 import FunsorVerif.Model.TermParse
+import FunsorVerif.Model.C01Ext
 namespace FV.Drv.C01
-open FV
+open FV FV.C01
+
+def ntToSexp (t : NT) : Sexp :=
+  Sexp.list [Sexp.atom "nt",
+    Sexp.list (t.inputs.map fun (n, s) => Sexp.list [Sexp.str n, Sexp.ofNat s]),
+    Sexp.ofNats t.shape,
+    Sexp.list (t.flat.map XR.toSexp)]
+
+def parseIns (ins : Sexp) : Option (List (Name × Nat)) := do
+  let ins ← ins.asList?
+  ins.mapM fun x => match x with
+    | Sexp.list [n, s] => do pure ((← n.asStr?), (← s.asNat?))
+    | _ => none
+
+/-- Table of an `NT` over all points of the named inputs `ins` (same format as `denote`). -/
+def ntTable (t : NT) (ins : List (Name × Nat)) (env : Env) : List (Option Sem) :=
+  match assignments (ins.map fun (n, k) => (n, ⟨DType.bint k, []⟩)) with
+  | none => []
+  | some asgs => asgs.map fun a => t.atEnv (a ++ env)
 
 /--
   C01 denote TERM (("n" size)*) ENV     table of the textbook value over all points of the named inputs
-  C01 fv TERM                           free names of the term (sorted, de-duplicated by the harness)
+                                        (extended evaluator: also `finitary` einsum/stack/cat nodes)
+  C01 peval TERM                        the model of eager evaluation: `ok none` (declined) or
+                                        `ok (nt (("n" size)*) (shape*) (flat data*))`
+  C01 pevalT TERM (("n" size)*) ENV     table of the peval result (or `ok none`)
+  C01 core TERM                         `ok true|false`: is TERM in the core fragment (Model/C01: `isCore`)
+  C01 fv TERM                           free names of the term
 -/
 def handle (args : List Sexp) : String :=
   match args with
-  | Sexp.atom "denote" :: rest => (handleDenote rest).getD "err bad-args"
+  | [Sexp.atom "denote", t, ins, env] =>
+    match parseTerm t, parseIns ins, parseEnv env with
+    | some t, some ins, some env => "ok " ++ toString (tableToSexp (denoteTableX t ins env))
+    | _, _, _ => "err bad-args"
+  | [Sexp.atom "peval", t] =>
+    match parseTerm t with
+    | some t =>
+      match peval t with
+      | some r => "ok " ++ toString (ntToSexp r)
+      | none => "ok none"
+    | none => "err bad-term"
+  | [Sexp.atom "pevalT", t, ins, env] =>
+    match parseTerm t, parseIns ins, parseEnv env with
+    | some t, some ins, some env =>
+      match peval t with
+      | some r => "ok " ++ toString (tableToSexp (ntTable r ins env))
+      | none => "ok none"
+    | _, _, _ => "err bad-args"
+  | [Sexp.atom "core", t] =>
+    match parseTerm t with
+    | some t => "ok " ++ (if isCore [] t then "true" else "false")
+    | none => "err bad-term"
   | [Sexp.atom "fv", t] =>
     match parseTerm t with
     | some t => "ok " ++ toString (Sexp.list (t.fv.map Sexp.str))
